@@ -39,6 +39,8 @@ def one_case(args):
     if beh['files'] and i % 6 == 2:
         # one output is a symbolic link to a file kept elsewhere (its content is what the test must watch)
         beh['link'] = [sorted(beh['files'])[0]]
+    if beh['files'] and i % 4 == 1:
+        beh['stamp'] = [n_ for n_ in sorted(beh['files']) if n_ not in beh.get('link', ())][:2]
     G.write_command(d, beh)
     flags = ['-Z'] if beh['code'] != 0 else []
     if rng.random() < 0.25:
